@@ -3,7 +3,7 @@
    for a refutation) and followed by Print Assumptions. *)
 From Coq Require Import ZArith QArith List Bool Lia.
 From NV Require Import Base.Bytes C16.Tables C16.Model C16.ModelAffine
-  C16.Lemmas C16.LemmasTrk C16.LemmasTckHdr C16.LemmasAffine C16.ModelLazy C16.LemmasLazy C16.LemmasSession C16.LemmasAbandon.
+  C16.Lemmas C16.LemmasTrk C16.LemmasTckHdr C16.LemmasAffine C16.ModelLazy C16.LemmasLazy C16.LemmasSession C16.LemmasAbandon C16.LemmasTrkSwap.
 From Coq Require Reals.
 From NV Require C16.ModelFloat C16.LemmasFloat.
 Import ListNotations.
@@ -214,6 +214,46 @@ Theorem C16_lazy_never_fails :
 Proof. split; [exact tck_lazy_total|exact trk_lazy_total]. Qed.
 Print Assumptions C16_lazy_never_fails.
 
+(* ---- BYTE ORDER of a TRK file (nibabel writes little-endian only; big-endian files come from
+   other tools).  swapped_header o hbL hbB: hbB is hbL with each numeric field the parser reads
+   (hdr_size, version, n_scalars, n_properties, n_count) byte-reversed and the two name blocks
+   equal.  Then the parser detects the other order from hdr_size and returns the same header
+   facts, the record loop returns the same streamlines from the byte-reversed records, and
+   trk_load of the big-endian file equals trk_load of the little-endian one in everything but
+   the recorded endianness.  The remaining header fields (voxel sizes, dimensions, vox_to_ras,
+   voxel_order) are not part of trk_info: their byte order is compared by the harness only
+   (trk_damaged:swap, big-endian copies). *)
+Theorem C16_trk_header_byte_order : forall o hb hb' info,
+  swapped_header o hb hb' ->
+  bytes_ok (get_at (o_hsize o) 4 hb) -> length (get_at (o_hsize o) 4 hb) = 4%nat ->
+  trk_parse_header o hb = Ok info -> i_be info = false ->
+  trk_parse_header o hb' =
+    Ok (mkInfo true (i_count info) (i_nscal info) (i_nprop info) (i_sslices info) (i_pslices info)).
+Proof. exact trk_header_swapped. Qed.
+Print Assumptions C16_trk_header_byte_order.
+
+Theorem C16_trk_data_byte_order : forall S P sl fuel, 0 <= S -> 0 <= P ->
+  Forall (wf_tstream S P) sl -> (length sl < fuel)%nat ->
+  forall be, trk_loop fuel be (3 + S) P (Some (zlen sl)) 0 (flat_map (trk_record be) sl) [] = Ok sl.
+Proof. exact trk_data_any_order. Qed.
+Print Assumptions C16_trk_data_byte_order.
+
+Theorem C16_trk_load_byte_order : forall o hbL hbB info S P sl,
+  zlen hbL = trk_header_size -> zlen hbB = trk_header_size ->
+  swapped_header o hbL hbB ->
+  bytes_ok (get_at (o_hsize o) 4 hbL) -> length (get_at (o_hsize o) 4 hbL) = 4%nat ->
+  trk_parse_header o hbL = Ok info -> i_be info = false ->
+  i_nscal info = S -> i_nprop info = P -> i_count info = zlen sl -> sl <> [] ->
+  0 <= S -> 0 <= P -> Forall (wf_tstream S P) sl ->
+  exists infoB,
+    trk_load o 0 (hbB ++ flat_map (trk_record true) sl) = Ok (infoB, sl)
+    /\ trk_load o 0 (hbL ++ flat_map (trk_record false) sl) = Ok (info, sl)
+    /\ i_be infoB = true /\ i_count infoB = i_count info /\ i_nscal infoB = i_nscal info
+    /\ i_nprop infoB = i_nprop info /\ i_sslices infoB = i_sslices info /\ i_pslices infoB = i_pslices info.
+Proof. exact trk_load_swapped. Qed.
+Print Assumptions C16_trk_load_byte_order.
+
+
 (* ---- FLOAT ARITHMETIC of the TRK coordinates, first bound (Flocq, round-to-nearest-even in the
    formats FLX 53 / FLX 24: unbounded exponent range, i.e. no overflow and no subnormal product),
    for ONE coordinate in the common DIAGONAL case (voxel sizes + translation; header voxel order
@@ -331,3 +371,32 @@ Proof.
               ltac:(cbn; lia) ltac:(cbn; lia) ltac:(cbn; lia) ltac:(cbn; lia) T) as (bytes & E1 & E2).
   exists bytes. split; [exact E1|exact E2].
 Qed.
+
+(* the premises are met by the header nibabel's writer model produces, with the five fields swapped *)
+Definition swap_at (off n : Z) (hb : list Z) : list Z := set_at off (rev (get_at off n hb)) hb.
+Definition bo_sl : list trk_stream :=
+  [mkStream [[1; 2; 3; 4; 5; 6; 7]; [8; 9; 10; 11; 12; 13; 14]] [15; 16];
+   mkStream [[21; 22; 23; 24; 25; 26; 2143289344]] [4286578688; 0]].
+Definition bo_hbL : list Z :=
+  match trk_save offs0 (mkF 0 []) user0 [([102; 97], 1); ([99; 111; 108], 3)] [([119], 2)] bo_sl with
+  | Ok b => takez trk_header_size b | Err _ => [] end.
+Definition bo_hbB : list Z :=
+  swap_at (o_count offs0) 4 (swap_at (o_nprop offs0) 2 (swap_at (o_nscal offs0) 2
+    (swap_at (o_version offs0) 4 (swap_at (o_hsize offs0) 4 bo_hbL)))).
+Example C16_trk_byte_order_nonvacuous :
+  zlen bo_hbL = trk_header_size /\ zlen bo_hbB = trk_header_size /\ bo_hbB <> bo_hbL
+  /\ swapped_header offs0 bo_hbL bo_hbB
+  /\ get_at (o_hsize offs0) 4 bo_hbL = [232; 3; 0; 0]
+  /\ (exists info, trk_parse_header offs0 bo_hbL = Ok info /\ i_be info = false
+        /\ i_nscal info = 4 /\ i_nprop info = 2 /\ i_count info = zlen bo_sl)
+  /\ (exists infoB, trk_load offs0 0 (bo_hbB ++ flat_map (trk_record true) bo_sl) = Ok (infoB, bo_sl)
+        /\ i_be infoB = true).
+Proof.
+  split; [vm_compute; reflexivity|]. split; [vm_compute; reflexivity|].
+  split; [vm_compute; discriminate|].
+  split; [unfold swapped_header; repeat split; vm_compute; reflexivity|].
+  split; [vm_compute; reflexivity|].
+  split; [eexists; split; [vm_compute; reflexivity|repeat split; reflexivity]|].
+  eexists; split; [vm_compute; reflexivity|reflexivity].
+Qed.
+Print Assumptions C16_trk_byte_order_nonvacuous.
